@@ -80,3 +80,23 @@ Theorem compareEdges_shared_min_not_antisymmetric :
   let o := P3 0 0 1 in let p := P3 0 1 0 in let q := P3 1 0 0 in
   s2_compareEdges o p o q = true /\ s2_compareEdges o q o p = true.
 Proof. vm_compute. split; reflexivity. Qed.
+
+(** ** the acceptance threshold of the stable path (intersectionError = 8 * dblError): one crossing
+    pair whose estimated error is 9.25 * dblError (rejected) and one with 7.10 * dblError
+    (accepted).  Re-checked against the regenerated translation on every run, so a change of
+    the constant in the Go source breaks this obligation. *)
+Definition t_rej : s2_Point * s2_Point * s2_Point * s2_Point :=
+  (P3 (-0x1.cf12b00871e7ap-01) (-0x1.0a5a922fb81aap-02) (-0x1.5a3e9718142dep-02),
+   P3 (-0x1.1b1a2d5ef2ff3p-01) (-0x1.823bfec4d882bp-01) (0x1.6a5399efba4f5p-02),
+   P3 (-0x1.ad84c3aae6182p-01) (-0x1.13cb0de1eb61p-01) (-0x1.3f96944803428p-04),
+   P3 (-0x1.6d87778935d1ap-01) (-0x1.34f99f1216938p-01) (0x1.6baf8b33bfe12p-02)).
+Definition t_acc : s2_Point * s2_Point * s2_Point * s2_Point :=
+  (P3 (0x1.3a8c03da51524p-01) (-0x1.42b789ab981f4p-03) (-0x1.8bd8e8d9b6c1ep-01),
+   P3 (0x1.482e554909908p-05) (-0x1.c4c1d2ed11cp-01) (-0x1.dc610f8cea30ep-02),
+   P3 (0x1.5eacda8de04d2p-01) (-0x1.8747bd3f35196p-02) (-0x1.3da41c6fc48f6p-01),
+   P3 (0x1.4a7756ac3e9f8p-05) (-0x1.1129f31ffc401p-01) (-0x1.b08c9fd66e72cp-01)).
+Definition stable4 (q : s2_Point * s2_Point * s2_Point * s2_Point) :=
+  let '(a0, a1, b0, b1) := q in s2_intersectionStable a0 a1 b0 b1.
+
+Theorem stable_threshold_witness : snd (stable4 t_rej) = false /\ snd (stable4 t_acc) = true.
+Proof. vm_compute. split; reflexivity. Qed.
